@@ -247,6 +247,10 @@ def render(td, rng=None, canonical=False, spell=None, vis="pub ", strip=False, e
                 return r
         return A.spell_entry(trait, params, level, rng, canonical=canonical or rng is None)
 
+    if order_rng is None and rng is not None and not canonical:
+        # entry order inside and across #[educe(..)] attributes is part of the random spelling
+        order_rng = rng
+
     def ents(level, obj, lst):
         if entries_hook is not None:
             lst = entries_hook(level, obj, list(lst))
